@@ -1,6 +1,7 @@
 /-
 Model of `extractor/filesystem/language/python/requirements` (`extractFromPath` and helpers) on raw bytes,
-for a file whose `-r` references cannot be opened (the harness scans with an empty FS). Code as of fixes
+(`parse`: one file; `extractAll` at the end of this file: the file plus the closure of its `-r` includes over a
+path → content map). Code as of fixes
 c0539e29 (PEP 508 names + "the name must be a prefix of the trimmed requirement") and 0b3783b7 (an option needs white
 space or the start of the line in front of it).
 Regular expressions are replaced by hand-written byte-level functions with the same leftmost-first semantics
@@ -219,5 +220,127 @@ def parse (bytes : List Char) : Outcome (List (List Char × List Char)) :=
   match loopGo (ls.length + 1) ls [] with
   | none => .panic
   | some pkgs => if tl then .err else .ok pkgs
+
+/-! ### `-r` includes: `Extract` + `extractFromExtraPaths`
+
+`extractFromPath` also collects, per logical line, the operand of a `-r` option (the text after "-r" in the line
+with options, white space, marker and extras removed) joined to the directory of the file it stands in; `Extract`
+then runs a work list over those paths: a path already in `found` is skipped, a file that cannot be opened or whose
+scanner fails is skipped (logged), every other file is parsed once, its packages get the location list
+`[top-level path, its own path]` and its own includes go to the END of the queue. Only the `-r` spelling is followed
+(`--requirement`, `-c`, `--constraint` are "global options other than -r": skipped). -/
+
+/-- the line `extractFromPath` tests for a leading "-r" -/
+def normLine (l0 : List Char) : List Char :=
+  rmExtras (beforeSemi ((cutOptions l0 []).filter (fun c => !(c = ' ' || c = '\t' || c = '\r')))) none []
+
+/-- operand of a `-r` line (`strings.TrimPrefix(l, "-r")`) -/
+def lineInc (l0 : List Char) : Option (List Char) :=
+  let l := normLine l0
+  if hasPrefix ['-', 'r'] l then some (l.drop 2) else none
+
+/-- the `extraPaths` a file contributes (operands, in file order), same loop as `loop` -/
+def incLoop : Nat → List Line → List (List Char) → List (List Char)
+  | 0, _, acc => acc
+  | _ + 1, [], acc => acc
+  | fuel + 1, l :: rest, acc =>
+    let (logical, rest') := readLogical (l :: rest) []
+    incLoop fuel rest' (match lineInc logical with | some p => acc ++ [p] | none => acc)
+
+def includes (bytes : List Char) : List (List Char) :=
+  let (ls, _) := scan bytes
+  incLoop (ls.length + 1) ls []
+
+/-! #### `filepath.Join(filepath.Dir(path), operand)` on slash paths -/
+
+def splitAll (c : Char) : List Char → List Char → List (List Char)
+  | [], cur => [cur.reverse]
+  | x :: t, cur => if x = c then cur.reverse :: splitAll c t [] else splitAll c t (x :: cur)
+
+/-- `path.Clean` on components; `st`: components kept so far, innermost first -/
+def cleanComps (rooted : Bool) : List (List Char) → List (List Char) → List (List Char)
+  | [], st => st.reverse
+  | c :: t, st =>
+    if c = [] || c = ['.'] then cleanComps rooted t st
+    else if c = ['.', '.'] then
+      match st with
+      | top :: st' => if top = ['.', '.'] then cleanComps rooted t (c :: st) else cleanComps rooted t st'
+      | [] => if rooted then cleanComps rooted t [] else cleanComps rooted t [c]
+    else cleanComps rooted t (c :: st)
+
+def joinSlash : List (List Char) → List Char
+  | [] => []
+  | [c] => c
+  | c :: d :: t => c ++ '/' :: joinSlash (d :: t)
+
+/-- `filepath.Clean` (unix) -/
+def clean (p : List Char) : List Char :=
+  if p.isEmpty then ['.'] else
+  let rooted := p.head? = some '/'
+  let out := joinSlash (cleanComps rooted (splitAll '/' p []) [])
+  if rooted then '/' :: out else if out.isEmpty then ['.'] else out
+
+/-- `filepath.Dir`: `Clean` of everything up to and including the last '/' -/
+def dirOf (p : List Char) : List Char := clean (p.reverse.dropWhile (· ≠ '/')).reverse
+
+/-- `filepath.Join(filepath.Dir(from), operand)`: the include is relative to the directory of the INCLUDING file -/
+def resolve (src operand : List Char) : List Char := clean (dirOf src ++ '/' :: operand)
+
+/-! #### the work list -/
+
+/-- path → content; `fs.Open` of a path that is not a key fails -/
+abbrev Files := List (Line × List Char)
+
+def openFile (fs : Files) (p : Line) : Option (List Char) := (fs.find? (fun x => x.1 = p)).map (·.2)
+
+/-- `openAndExtractFromFile`: packages and resolved includes of one file; `.err` = cannot open / scanner error (skipped) -/
+def visit (fs : Files) (p : Line) : Outcome (List (List Char × List Char) × List Line) :=
+  match openFile fs p with
+  | none => .err
+  | some b =>
+    match parse b with
+    | .ok pk => .ok (pk, (includes b).map (resolve p))
+    | .err => .err
+    | .panic => .panic
+
+/-- `pkgs = append(pkgs, newPKG...)` in front of what the rest of the loop reads -/
+def pushRead {α : Type} (x : Line × α) : Outcome (List (Line × α)) → Outcome (List (Line × α))
+  | .ok r => .ok (x :: r)
+  | o => o
+
+/-- the loop of `extractFromExtraPaths` over `queue` with the `found` set; the result lists every file read, in the order read -/
+def walk {α : Type} (visit : Line → Outcome (α × List Line)) : Nat → List Line → List Line → Outcome (List (Line × α))
+  | 0, _, _ => .ok []
+  | _ + 1, [], _ => .ok []
+  | fuel + 1, p :: q, found =>
+    if p ∈ found then walk visit fuel q found
+    else
+      match visit p with
+      | .panic => .panic
+      | .err => walk visit fuel q found
+      | .ok (a, incs) => pushRead (p, a) (walk visit fuel (q ++ incs) (p :: found))
+
+/-- what reading `p` appends to the queue -/
+def incCount {α : Type} (visit : Line → Outcome (α × List Line)) (p : Line) : Nat :=
+  match visit p with
+  | .ok (_, incs) => incs.length
+  | _ => 0
+
+/-- enough iterations for the Go loop (which has no bound): every iteration either drops a queue entry or reads a file
+that was not read before and appends its includes (`walk_fuel` in Proofs/Parsers/RequirementsTree.lean: any larger value gives the same result) -/
+def walkFuel (fs : Files) (q : List Line) : Nat :=
+  q.length + (fs.map fun x => 1 + incCount (visit fs) x.1).sum + 1
+
+/-- `Extract`: (name, version, locations) of the top-level file and of every file its includes reach -/
+def extractAll (fs : Files) (top : Line) (bytes : List Char) : Outcome (List (List Char × List Char × List Line)) :=
+  match parse bytes with
+  | .ok pk =>
+    let q := (includes bytes).map (resolve top)
+    match walk (visit fs) (walkFuel fs q) q [top] with
+    | .ok r => .ok (pk.map (fun x => (x.1, x.2, [top])) ++ r.flatMap (fun y => y.2.map (fun x => (x.1, x.2, [top, y.1]))))
+    | .err => .err
+    | .panic => .panic
+  | .err => .err
+  | .panic => .panic
 
 end Scalibr.Parsers.Requirements
